@@ -26,6 +26,9 @@ const (
 )
 
 func init() {
+	mutant(&Mutant{Name: "c02-one-letter-names-kept", Property: "C02", File: "js/vars.go",
+		Old: "\tfor _, v := range scope.Declared {\n\t\tv.Data = r.getName(v.Data, i)\n", New: "\tfor _, v := range scope.Declared {\n\t\tif identStartLen <= i && len(v.Data) == 1 {\n\t\t\tcontinue\n\t\t}\n\t\tv.Data = r.getName(v.Data, i)\n",
+		Rule: "R02.11", Construct: "renames every declared binding"})
 	register(&Property{
 		ID:    "C02",
 		Level: "other",
@@ -90,6 +93,7 @@ func runC02(c *Ctx) {
 	c.r027(pk)
 	c.r029(pk)
 	c.r0210(pk)
+	c.r0211(pk)
 	c.R.Rule("R02.8", "R01.3 restricted to renamer.rename: every save `p := m.renamer.rename` is followed, on every path from the later assignment of the switch to a function exit, by the restore `m.renamer.rename = p` — a leaked `on` lets the rest of an enclosing function that contains `with` be renamed")
 	c.r013(pk, "R02.8", map[string]bool{"rename": true})
 }
@@ -978,4 +982,52 @@ func (c *Ctx) r0210(pk *packages.Package) {
 		}
 	}
 	c.R.Floor(rule, "calls of Scope.Unscope", n, 1)
+}
+
+// R02.11: every binding of a scope gets its name from the generator.
+func (c *Ctx) r0211(pk *packages.Package) {
+	const rule = "R02.11"
+	c.R.Rule(rule, "renamer.renameScope hands out the names of one sequence to the bindings of a scope; two bindings are distinct because each took a different element. A binding that keeps its source name — a `continue` in front of the assignment — is outside that argument: its name may already have been handed to a binding renamed earlier (`var x=24,…,x=1e3` merges two variables, with let it is a redeclaration) or to an outer variable. In the loop over scope.Declared no path leads from the head of the loop to the next iteration without passing the assignment `v.Data = r.getName(…)`")
+	info := pk.TypesInfo
+	fd := c.fn(rule, pk, "renamer.renameScope")
+	if fd == nil {
+		return
+	}
+	g := c.graph(pk, fd)
+	n := 0
+	for _, h := range g.Nodes {
+		if h.Kind != flow.KRange {
+			continue
+		}
+		rs, ok := h.Stmt.(*ast.RangeStmt)
+		if !ok || !strings.HasSuffix(nospace(str(rs.X)), ".Declared") {
+			continue
+		}
+		n++
+		var entry *flow.Node
+		for _, q := range g.Nodes {
+			if q.Kind == flow.KTrue && q.Of == h {
+				entry = q
+			}
+		}
+		if entry == nil {
+			c.R.Unres(rule, "js.renamer.renameScope/loop over the declared bindings", c.pos(rs), "loop entry not found in the flow graph")
+			continue
+		}
+		assigns := func(q *flow.Node) bool {
+			as, ok := q.Stmt.(*ast.AssignStmt)
+			if !ok || q.Kind != flow.KStmt || len(as.Lhs) != 1 || len(as.Rhs) != 1 {
+				return false
+			}
+			if !strings.HasSuffix(nospace(str(as.Lhs[0])), ".Data") {
+				return false
+			}
+			ce, ok := ast.Unparen(as.Rhs[0]).(*ast.CallExpr)
+			return ok && strings.HasSuffix(calleeName(info, ce), ".getName")
+		}
+		p := g.Path(flow.Search{From: []*flow.Node{entry}, Goal: func(q *flow.Node) bool { return q == h }, Avoid: assigns})
+		c.R.Check(p == nil, rule, fmt.Sprintf("js.renamer.renameScope/loop#%d renames every declared binding", n), c.pos(rs), "each iteration assigns a generated name",
+			"an iteration of the loop over the declared bindings can end without giving the binding a generated name: it keeps its source name, which the generator may have handed to another binding of the same scope: "+pathStr(c, g, p))
+	}
+	c.R.Floor(rule, "loops over scope.Declared in renameScope", n, 1)
 }
